@@ -14,8 +14,9 @@ import (
 // C07 — Sequential handlers never overlap and process events in publish order.
 
 type C07Reg struct {
-	Fn   int     `json:"fn"`
-	Opts SubOpts `json:"opts"`
+	Fn      int     `json:"fn"`
+	Opts    SubOpts `json:"opts"`
+	PanicOn []int   `json:"panic_on,omitempty"` // invocation numbers on which the handler panics (after its exit mark)
 }
 
 type C07Scenario struct {
@@ -25,6 +26,11 @@ type C07Scenario struct {
 	Pubs   [][]int  `json:"pubs"` // per publisher task: event ids (publisher*1000 + sequence number)
 	Yields int      `json:"yields"`
 	ViaAny bool     `json:"via_any,omitempty"` // publish through an interface-typed value (reflection dispatch path)
+	// Neighbours subscribed before the handlers under test: Once handlers (retired by the first
+	// publish) and a handler that unsubscribes itself on its first invocation. Their removal
+	// reshuffles the registry while other publishes are being dispatched.
+	OnceBefore int  `json:"once_before,omitempty"`
+	SelfUnsub  bool `json:"self_unsub,omitempty"`
 }
 
 func genC07(rt *rapid.T) core.Scenario {
@@ -35,10 +41,14 @@ func genC07(rt *rapid.T) core.Scenario {
 		if i%2 == 1 {
 			fn = numSites + i
 		}
-		sc.Regs = append(sc.Regs, C07Reg{Fn: fn, Opts: SubOpts{
+		r := C07Reg{Fn: fn, Opts: SubOpts{
 			Seq:   i == 0 || rapid.IntRange(0, 2).Draw(rt, "seq") > 0,
 			Async: rapid.Bool().Draw(rt, "async"),
-		}})
+		}}
+		if rapid.IntRange(0, 3).Draw(rt, "panics") == 3 {
+			r.PanicOn = rapid.SliceOfNDistinct(rapid.IntRange(0, 5), 1, 2, rapid.ID[int]).Draw(rt, "panicOn")
+		}
+		sc.Regs = append(sc.Regs, r)
 	}
 	np := rapid.IntRange(1, 4).Draw(rt, "nPublishers")
 	for p := 0; p < np; p++ {
@@ -51,6 +61,10 @@ func genC07(rt *rapid.T) core.Scenario {
 	}
 	sc.Yields = rapid.IntRange(1, 5).Draw(rt, "yields")
 	sc.ViaAny = rapid.IntRange(0, 4).Draw(rt, "viaAny") == 4
+	if rapid.IntRange(0, 2).Draw(rt, "neighbours") == 2 {
+		sc.OnceBefore = rapid.IntRange(0, 2).Draw(rt, "onceBefore")
+		sc.SelfUnsub = rapid.Bool().Draw(rt, "selfUnsub")
+	}
 	sc.Tape = core.DrawTape(rt, 600)
 	return sc
 }
@@ -69,7 +83,16 @@ func (sc *C07Scenario) Execute(t *testing.T) *core.Outcome {
 	contended := 0
 	body := func() {
 		w = NewWorld()
+		calls := map[int]int{}
 		w.OnInvoke = func(ti, fn, uid int, ctx context.Context, id int) {
+			if uid >= 100 { // neighbours
+				w.Rec.Add("neighbour", uid, id, "")
+				simrt.Yield(siteHandler)
+				if uid == 200 {
+					ops.Unsub(w, fn)
+				}
+				return
+			}
 			ri := regOfFn[fn]
 			w.Rec.Add("enter", ri, id, "")
 			inside[ri]++
@@ -85,6 +108,26 @@ func (sc *C07Scenario) Execute(t *testing.T) *core.Outcome {
 			}
 			inside[ri]--
 			w.Rec.Add("exit", ri, id, "")
+			k := calls[ri]
+			calls[ri]++
+			for _, p := range sc.Regs[ri].PanicOn {
+				if p == k {
+					out.Fault("handler-panic")
+					panic(fmt.Sprintf("sequential handler %d panics on invocation %d", ri, k))
+				}
+			}
+		}
+		for i := 0; i < sc.OnceBefore; i++ {
+			if err := w.SubscribeUID(sc.Type, numSites-1-i, 100+i, SubOpts{Once: true}); err != nil {
+				out.HarnessErr = err.Error()
+				return
+			}
+		}
+		if sc.SelfUnsub {
+			if err := w.SubscribeUID(sc.Type, numSites-4, 200, SubOpts{}); err != nil {
+				out.HarnessErr = err.Error()
+				return
+			}
 		}
 		for _, r := range sc.Regs {
 			if err := w.Subscribe(sc.Type, r.Fn, r.Opts); err != nil {
